@@ -542,7 +542,7 @@ Proof. intro H. rewrite take_n_spec. pose proof (firstn_le_length c l). destruct
 Lemma dec_short h c : wf_hdr h -> (c < length (enc_hdr h))%nat -> dec_hdr (firstn c (enc_hdr h)) = DecShort.
 Proof.
   intros (Ho & Hp & Hk & Hz) Hc. rewrite enc_hdr_length in Hc. unfold enc_hdr. cbn [app].
-  destruct c as [|[|c]]; [reflexivity | reflexivity |]. cbn [firstn]. unfold dec_hdr. cbv zeta.
+  destruct c as [|[|c]]; [reflexivity | reflexivity |]. cbn [firstn]. unfold dec_hdr, dec_ext. cbv zeta.
   assert (Mk : (128 <=? enc_b1 h) = h_masked h).
   { unfold enc_b1, bit. destruct (h_masked h); destruct (N.ltb_spec 65535 (h_plen h)); destruct (N.ltb_spec 125 (h_plen h)); lia. }
   rewrite Mk, enc_b1_mod128. clear Mk.
